@@ -4,6 +4,7 @@ import (
 	"fmt"
 	"go/ast"
 	"go/constant"
+	"go/types"
 	"strings"
 
 	"golang.org/x/tools/go/ssa"
@@ -12,36 +13,42 @@ import (
 func init() {
 	register(&propDef{
 		id: "C20", run: runC20, minOblig: 9,
-		explanation: "Decides the structure of the OpenPGP string-to-key functions (RFC 4880 section 3.7), not the hash values. (count octet) decodeCount is evaluated for all 256 octets and equals (16 + (c & 15)) << ((c >> 4) + 6); encodeCount, interpreted with decodeCount inlined, returns for boundary counts the smallest octet whose decoded count is not below the request and panics outside 1024..65011712; (hash input) Salted and Iterated are interpreted (slices by length) for output lengths that need one, two and three hash contexts, hash sizes 16 and 20, several passphrase / salt lengths and counts below, equal to and above the combined length: context i is reset, preloaded with exactly i zero octets, then fed salt followed by passphrase (Salted) or the repetition of salt|passphrase cut at exactly max(count, len(salt)+len(passphrase)) octets, every write being a prefix of the combined buffer (Iterated); each context's digest is copied to the output at offset i*hashSize, truncated at the end; Simple is Salted with no salt; (specifier) Parse dispatches type 0 / 1 / 3 to Simple / Salted(8-octet salt) / Iterated(8-octet salt, decodeCount of the ninth octet) over the hash named by the second octet and rejects every other type; Serialize writes type 3, the hash id, the 8 salt octets it then uses and the count octet whose decoded value it then uses — the same layout Parse reads; the hash-id table is RFC 4880 section 9.4. NOT decided: digest values, availability of hashes at run time, encodedCount's clamping of configuration values.",
+		explanation: "Decides the structure of the OpenPGP string-to-key functions (RFC 4880 section 3.7), not the hash values. Everything is decided by interpreting the functions (flow-sensitively, helpers of the package and function literals with their captured variables interpreted in place, byte buffers modelled octet by octet with symbolic salt / passphrase / digest octets), never by the shape or the names of the code. (count octet) decodeCount is interpreted for all 256 octets and equals (16 + (c & 15)) << ((c >> 4) + 6) (a table filled by the package initializer is read through the interpreted initializer); encodeCount (sort.Search modelled as documented) returns for boundary counts the smallest octet whose decoded count is not below the request and panics outside 1024..65011712; (hash input) Simple, Salted and Iterated are interpreted for output lengths that need one, two and three hash contexts, hash sizes 16 and 20, several passphrase / salt lengths and counts below, equal to and above the combined length: the octet sequence fed to context i between its Reset and its Sum is exactly i zero octets followed by salt|passphrase (Simple: passphrase only) or by the repetition of salt|passphrase cut at max(count, len(salt)+len(passphrase)) octets (Iterated), however the writes are chunked, and key octet j is octet j mod hashSize of the digest of context j / hashSize; (specifier) Parse is interpreted on a modelled input stream for all 256 type octets: types 0 / 1 / 3 consume exactly 2 / 10 / 11 octets and return, without error, a function whose interpretation produces the Simple / Salted / Iterated transcript over the hash looked up from the second octet, with the salt being stream octets 2..9 and the count decodeCount of octet 10 (two count octets); every other type returns a nil function and a non-nil error; Serialize is interpreted: it writes exactly [3, id of the configured hash, 8 octets read from rand, the configuration's count octet] and derives the key with the Iterated transcript for that salt and the decoded value of that count octet — the layout Parse reads; the hash-id table is RFC 4880 section 9.4. NOT decided: digest values, availability of hashes at run time, the error paths of Parse / Serialize on short input, encodedCount's clamping of configuration values.",
 		assumptions: []string{"hash.Hash contracts"},
 	})
-	tech("C20", "finite-domain evaluation of the count octet over all 256 values; flow-sensitive interpretation of the hash-input loops against the RFC 4880 transcript; writer/reader layout agreement; table agreement")
+	tech("C20", "finite-domain interpretation of the count octet codec over all 256 values; flow-sensitive interpretation of Simple/Salted/Iterated, Parse (plus the function it returns) and Serialize against the octet-level RFC 4880 transcript; table agreement")
 }
+
+func c20Dec(v int64) int64 { return (16 + (v & 15)) << (uint(v>>4) + 6) }
 
 func runC20(c *Ctx) {
 	const pkg = "openpgp/s2k"
 	if f := c.fn(pkg, "decodeCount"); f != nil {
 		bad := ""
-		for v := int64(0); v < 256; v++ {
-			e := newEnv()
-			e.bind(f.Params[0], v)
-			for _, r := range returnsOf(f) {
-				got, ok := e.eval(retVal(r, 0))
-				want := (16 + (v & 15)) << (uint(v>>4) + 6)
-				if !ok || got != want {
-					bad = fmt.Sprintf("octet %d decodes to %d, RFC 4880 3.7.1.3 gives %d", v, got, want)
-				}
+		for v := int64(0); v < 256 && bad == ""; v++ {
+			s := newC20sim(c, pkg, 20)
+			w := s.walker(4000)
+			w.env.bind(f.Params[0], v)
+			end := w.walk(f.Blocks[0], nil)
+			if end != "return" {
+				bad = fmt.Sprintf("octet %d: evaluation ended with %s %s", v, end, w.why)
+				break
+			}
+			got, ok := w.env.eval(retVal(w.last.(*ssa.Return), 0))
+			if !ok || len(s.notes) > 0 {
+				bad = fmt.Sprintf("octet %d: the decoded count does not evaluate over the finite domain %s", v, strings.Join(s.notes, "; "))
+			} else if got != c20Dec(v) {
+				bad = fmt.Sprintf("octet %d decodes to %d, RFC 4880 3.7.1.3 gives %d", v, got, c20Dec(v))
 			}
 		}
-		c.check(bad == "" && len(f.Blocks) == 1, "C20.count", "decodeCount", f, "all 256 octets: (16 + (c & 15)) << ((c >> 4) + 6)", bad)
+		c.check(bad == "", "C20.count", "decodeCount", f, "all 256 octets: (16 + (c & 15)) << ((c >> 4) + 6)", bad)
 	}
 	if f := c.fn(pkg, "encodeCount"); f != nil {
-		dec := func(v int64) int64 { return (16 + (v & 15)) << (uint(v>>4) + 6) }
 		bad := ""
-		for _, i := range []int64{0, 1023, 1024, 1025, 1088, 1089, 65536, 65537, 1000000, 65011711, 65011712, 65011713} {
-			w := &pathWalker{env: newEnv(), maxSteps: 20000}
+		for _, i := range []int64{0, 1023, 1024, 1025, 1088, 1089, 1984, 1985, 2048, 65536, 65537, 1000000, 65011711, 65011712, 65011713} {
+			s := newC20sim(c, pkg, 20)
+			w := s.walker(20000)
 			w.env.bind(f.Params[0], i)
-			w.inline = func(callee *ssa.Function) bool { return callee.Name() == "decodeCount" }
 			end := w.walk(f.Blocks[0], nil)
 			wantPanic := i < 1024 || i > 65011712
 			if end == "undecided" || wantPanic != (end == "panic") {
@@ -52,80 +59,50 @@ func runC20(c *Ctx) {
 				continue
 			}
 			got, ok := w.env.eval(retVal(w.last.(*ssa.Return), 0))
-			if !ok || dec(got) < i || got > 0 && dec(got-1) >= i {
-				bad = fmt.Sprintf("count %d is encoded as octet %d (decodes to %d); the smallest sufficient octet is required", i, got, dec(got))
+			if !ok || len(s.notes) > 0 {
+				bad = fmt.Sprintf("count %d: the encoded octet does not evaluate over the finite domain %s", i, strings.Join(s.notes, "; "))
+				break
+			}
+			if got < 0 || got > 255 || c20Dec(got) < i || got > 0 && c20Dec(got-1) >= i {
+				bad = fmt.Sprintf("count %d is encoded as octet %d (decodes to %d); the smallest sufficient octet is required", i, got, c20Dec(got&255))
+				break
 			}
 		}
 		c.check(bad == "", "C20.count", "encodeCount", f, "smallest octet whose decoded count >= request; panics outside 1024..65011712", bad)
 	}
-	c20Loops(c, pkg)
+	c20HashInput(c, pkg)
 	c20Parse(c, pkg)
-	// hash id table
-	want := map[int64]string{1: "MD5", 2: "SHA1", 3: "RIPEMD160", 8: "SHA256", 9: "SHA384", 10: "SHA512", 11: "SHA224"}
-	got := map[int64]string{}
-	okTable := true
-	if p := c.pkg(pkg); p != nil {
-		for _, file := range p.Syntax {
-			ast.Inspect(file, func(n ast.Node) bool {
-				vs, ok := n.(*ast.ValueSpec)
-				if !ok || len(vs.Names) != 1 || vs.Names[0].Name != "hashToHashIdMapping" || len(vs.Values) != 1 {
-					return true
-				}
-				cl, ok := vs.Values[0].(*ast.CompositeLit)
-				if !ok {
-					return true
-				}
-				for _, el := range cl.Elts {
-					row, ok := el.(*ast.CompositeLit)
-					if !ok || len(row.Elts) != 3 {
-						okTable = false
-						continue
-					}
-					idv := p.TypesInfo.Types[row.Elts[0]].Value
-					namev := p.TypesInfo.Types[row.Elts[2]].Value
-					sel, isSel := row.Elts[1].(*ast.SelectorExpr)
-					if idv == nil || namev == nil || !isSel {
-						okTable = false
-						continue
-					}
-					id, _ := constant.Int64Val(constant.ToInt(idv))
-					got[id] = sel.Sel.Name
-					if constant.StringVal(namev) != sel.Sel.Name {
-						okTable = false
-					}
-				}
-				return true
-			})
-		}
-	}
-	okTable = okTable && len(got) == len(want)
-	for id, n := range want {
-		if got[id] != n {
-			okTable = false
-		}
-	}
-	c.check(okTable, "C20.hash-ids", "hashToHashIdMapping", nil, "RFC 4880 9.4 ids 1,2,3,8,9,10,11 with matching crypto.Hash and name", fmt.Sprintf("the hash-id table differs from RFC 4880 section 9.4: %v", got))
+	c20Serialize(c, pkg)
+	c20HashIds(c, pkg)
 }
 
-func c20Loops(c *Ctx, pkg string) {
-	for _, iter := range []bool{false, true} {
-		name := "Salted"
-		if iter {
-			name = "Iterated"
-		}
+// c20HashInput interprets Simple / Salted / Iterated (parameters by position:
+// out, hash, passphrase[, salt[, count]]) and compares the octets fed to every
+// hash context and the octets of the derived key with RFC 4880 3.7.1.
+func c20HashInput(c *Ctx, pkg string) {
+	for _, name := range []string{"Simple", "Salted", "Iterated"} {
 		f := c.fn(pkg, name)
 		if f == nil {
 			continue
 		}
-		outP, hP, inP, saltP := f.Params[0], f.Params[1], f.Params[2], f.Params[3]
+		iter, salted := name == "Iterated", name != "Simple"
+		want := map[string]int{"Simple": 3, "Salted": 4, "Iterated": 5}[name]
+		if len(f.Params) != want {
+			c.undecided("C20.hash-input", pkg+"."+name, f, "unexpected signature")
+			continue
+		}
 		counts := []int64{0}
 		if iter {
 			counts = []int64{0, 5, 11, 12, 13, 24, 25, 100}
 		}
+		lenCases := [][2]int64{{4, 8}, {0, 8}, {7, 0}, {0, 0}}
+		if !salted {
+			lenCases = [][2]int64{{4, 0}, {7, 0}, {0, 0}, {1, 0}}
+		}
 		cases, bad := 0, ""
 		for _, hs := range []int64{16, 20} {
 			for _, outLen := range []int64{0, 1, hs, hs + 1, 2 * hs, 2*hs + 3} {
-				for _, lens := range [][2]int64{{4, 8}, {0, 8}, {7, 0}, {0, 0}} {
+				for _, lens := range lenCases {
 					for _, count := range counts {
 						if bad != "" {
 							continue
@@ -136,104 +113,16 @@ func c20Loops(c *Ctx, pkg string) {
 							// repeat the loop of Iterated cannot advance (observed, outside the property)
 							continue
 						}
-						w := &pathWalker{env: newEnv(), lengths: true, maxSteps: 40000}
-						w.env.bind(outP, outLen)
-						w.env.bind(inP, pl)
-						w.env.bind(saltP, sl)
+						s := newC20sim(c, pkg, hs)
+						w := s.walker(40000)
+						s.param(w, f.Params[0], "out", c20Fill(c20OutInit, outLen), false)
+						w.cls[f.Params[1]] = "hash"
+						s.param(w, f.Params[2], "in", c20Seq(c20PassTok, pl), true)
+						if salted {
+							s.param(w, f.Params[3], "salt", c20Seq(c20SaltTok, sl), true)
+						}
 						if iter {
 							w.env.bind(f.Params[4], count)
-						}
-						class := map[ssa.Value]string{outP: "out", inP: "in", saltP: "salt"}
-						off := map[ssa.Value]int64{outP: 0}
-						w.cls, w.off = class, off // follow arguments into inlined helpers
-						class[hP] = "hash"
-						var combined ssa.Value
-						w.onSlice = func(w *pathWalker, s *ssa.Slice) {
-							if cl, ok := w.cls[s.X]; ok {
-								lo := int64(0)
-								if s.Low != nil {
-									lo, _ = w.env.eval(s.Low)
-								}
-								w.cls[s], w.off[s] = cl, w.off[s.X]+lo
-							}
-							if g, ok := s.X.(*ssa.Global); ok && g.Name() == "zero" {
-								w.cls[s] = "zero"
-							}
-						}
-						w.onPhi = func(w *pathWalker, ph *ssa.Phi, in ssa.Value) {
-							if cl, ok := w.cls[in]; ok {
-								w.cls[ph], w.off[ph] = cl, w.off[in]
-							} else {
-								delete(w.cls, ph)
-							}
-						}
-						type ctx struct {
-							zeros, fed int64
-							parts      []string
-						}
-						var ctxs []ctx
-						var cur *ctx
-						var copies []string
-						combinedOK := map[string]bool{}
-						w.onCall = func(w *pathWalker, ci ssa.CallInstruction) string {
-							cc := ci.Common()
-							if calleeName(cc) == "builtin:copy" {
-								d, s := cc.Args[0], cc.Args[1]
-								if ms, ok := sliceBase(d).(*ssa.MakeSlice); ok && iter {
-									combined = ms
-									w.cls[ms] = "combined"
-									lo := w.off[d]
-									if sl2, isS := d.(*ssa.Slice); isS && sl2.Low != nil {
-										lo, _ = w.env.eval(sl2.Low)
-									}
-									combinedOK[fmt.Sprintf("%s@%d", w.cls[s], lo)] = true
-									return ""
-								}
-								if w.cls[d] == "out" {
-									dl, _ := w.env.eval(d)
-									sl3, _ := w.env.eval(s)
-									copies = append(copies, fmt.Sprintf("out@%d+%d", w.off[d], min(dl, sl3)))
-								}
-								return ""
-							}
-							if !cc.IsInvoke() || w.cls[cc.Value] != "hash" {
-								return ""
-							}
-							switch cc.Method.Name() {
-							case "Reset":
-								ctxs = append(ctxs, ctx{})
-								cur = &ctxs[len(ctxs)-1]
-							case "Write":
-								if cur == nil {
-									ctxs = append(ctxs, ctx{})
-									cur = &ctxs[len(ctxs)-1]
-									cur.parts = append(cur.parts, "write-before-reset")
-								}
-								a := cc.Args[0]
-								l, _ := w.env.eval(a)
-								switch w.cls[a] {
-								case "zero":
-									if cur.fed > 0 {
-										cur.parts = append(cur.parts, "zero-after-data")
-									}
-									cur.zeros += l
-								case "salt", "in":
-									cur.parts = append(cur.parts, w.cls[a])
-									cur.fed += l
-								case "combined":
-									if w.off[a] != 0 {
-										cur.parts = append(cur.parts, "combined-not-prefix")
-									}
-									cur.fed += l
-								default:
-									cur.parts = append(cur.parts, "?")
-								}
-							case "Sum":
-								if v, ok := ci.(ssa.Value); ok {
-									w.env.bind(v, hs)
-								}
-							}
-							return ""
 						}
 						end := w.walk(f.Blocks[0], nil)
 						cases++
@@ -242,187 +131,370 @@ func c20Loops(c *Ctx, pkg string) {
 							bad = id + ": evaluation ended with " + end + " " + w.why
 							continue
 						}
-						rounds := (outLen + hs - 1) / hs
-						if int64(len(ctxs)) != rounds {
-							bad = fmt.Sprintf("%s: %d hash contexts used, %d needed", id, len(ctxs), rounds)
-							continue
-						}
-						wantFed := pl + sl
-						if iter && count > wantFed {
-							wantFed = count
-						}
-						for i, cx := range ctxs {
-							if cx.zeros != int64(i) {
-								bad = fmt.Sprintf("%s: context %d is preloaded with %d zero octets", id, i, cx.zeros)
-							}
-							if cx.fed != wantFed {
-								bad = fmt.Sprintf("%s: context %d hashes %d octets, RFC 4880 requires %d", id, i, cx.fed, wantFed)
-							}
-							if !iter && strings.Join(cx.parts, " ") != "salt in" {
-								bad = fmt.Sprintf("%s: context %d is fed [%s], expected salt then passphrase", id, i, strings.Join(cx.parts, " "))
-							}
-							if iter && len(cx.parts) > 0 {
-								bad = fmt.Sprintf("%s: context %d: %s", id, i, strings.Join(cx.parts, " "))
-							}
-						}
-						var wantCopies []string
-						for i := int64(0); i < rounds; i++ {
-							wantCopies = append(wantCopies, fmt.Sprintf("out@%d+%d", i*hs, min(hs, outLen-i*hs)))
-						}
-						if strings.Join(copies, " ") != strings.Join(wantCopies, " ") {
-							bad = fmt.Sprintf("%s: digests copied to [%s], expected [%s]", id, strings.Join(copies, " "), strings.Join(wantCopies, " "))
-						}
-						if iter && rounds > 0 && !(combinedOK["salt@0"] && combinedOK[fmt.Sprintf("in@%d", sl)]) {
-							bad = id + ": the repeated buffer is not salt followed by passphrase"
-						}
-						_ = combined
-						if w.oob {
+						if msg := s.compare("out", hs, outLen, c20Seq(c20SaltTok, sl), c20Seq(c20PassTok, pl), iter, count); msg != "" {
+							bad = id + ": " + msg
+						} else if w.oob {
 							bad = id + ": a slice expression leaves its bounds"
 						}
 					}
 				}
 			}
 		}
-		c.check(bad == "" && cases > 40, "C20.hash-input", pkg+"."+name, f, fmt.Sprintf("%d (hash size, output, passphrase, salt, count) cases agree with RFC 4880 3.7.1", cases), bad)
-	}
-	if f := c.fn(pkg, "Simple"); f != nil {
-		cs := callsNamed(f, pkg+".Salted")
-		ok := len(cs) == 1 && cs[0].Common().Args[0] == ssa.Value(f.Params[0]) && cs[0].Common().Args[1] == ssa.Value(f.Params[1]) && cs[0].Common().Args[2] == ssa.Value(f.Params[2]) && isNilConst(cs[0].Common().Args[3])
-		c.check(ok, "C20.hash-input", pkg+".Simple", f, "Simple = Salted with no salt", "Simple is not Salted(out, h, in, nil)")
+		c.check(bad == "" && cases > 40, "C20.hash-input", pkg+"."+name, f, fmt.Sprintf("%d (hash size, output, passphrase, salt, count) cases agree octet for octet with RFC 4880 3.7.1", cases), bad)
 	}
 }
 
+func c20TypeIs(t types.Type, s string) bool { return t != nil && types.TypeString(t, nil) == s }
+
+func c20IsOctet(t types.Type) bool {
+	b, ok := t.Underlying().(*types.Basic)
+	return ok && b.Kind() == types.Uint8
+}
+
+// c20HashCalls models the calls around crypto.Hash by role: a lookup
+// (octet) -> (crypto.Hash, bool) / (crypto.Hash) -> (octet, bool) succeeds,
+// Available() holds, New() yields the hash the transcript is recorded on.
+// idArg tells whether the octet handed to the lookup is the expected one;
+// idOut is the octet a reverse lookup yields.
+func c20HashCalls(s *c20sim, idArg func(n int64, ok bool) bool, idOut int64) func(w *pathWalker, ci ssa.CallInstruction) bool {
+	return func(w *pathWalker, ci ssa.CallInstruction) bool {
+		cc := ci.Common()
+		val, _ := ci.(ssa.Value)
+		if val == nil || cc.IsInvoke() {
+			return false
+		}
+		name := short(calleeName(cc))
+		setTuple := func(a, b optInt) {
+			if w.tuple == nil {
+				w.tuple = map[ssa.Value][]optInt{}
+			}
+			w.tuple[val] = []optInt{a, b}
+		}
+		if tup, ok := val.Type().(*types.Tuple); ok && tup.Len() == 2 && len(cc.Args) == 1 && c20TypeIs(tup.At(1).Type(), "bool") {
+			switch {
+			case c20TypeIs(tup.At(0).Type(), "crypto.Hash") && c20IsOctet(cc.Args[0].Type()):
+				n, nok := w.env.eval(cc.Args[0])
+				if !idArg(n, nok) {
+					s.note("the hash is looked up from something other than the hash-id octet of the specifier")
+					return true
+				}
+				setTuple(optInt{3, true}, optInt{1, true})
+				s.tupCls[val] = []string{"hashid", ""}
+				return true
+			case c20IsOctet(tup.At(0).Type()) && c20TypeIs(cc.Args[0].Type(), "crypto.Hash"):
+				if w.cls[cc.Args[0]] != "hashid" {
+					s.note("the hash id written is not that of the configured hash")
+					return true
+				}
+				setTuple(optInt{idOut, true}, optInt{1, true})
+				return true
+			}
+		}
+		if strings.HasSuffix(name, "crypto.Hash).Available") {
+			w.env.bind(val, 1)
+			return true
+		}
+		if strings.HasSuffix(name, "crypto.Hash).New") && len(cc.Args) == 1 {
+			if w.cls[cc.Args[0]] == "hashid" {
+				w.cls[val] = "hash"
+			} else {
+				s.note("a hash is created from something other than the looked-up hash")
+			}
+			return true
+		}
+		return false
+	}
+}
+
+// c20Parse interprets Parse on a modelled input stream [type, hash id,
+// salt(8), count octet] for every type octet, then interprets the function it
+// returns and compares the hash transcript with RFC 4880 3.7.1.
 func c20Parse(c *Ctx, pkg string) {
 	f := c.fn(pkg, "Parse")
 	if f == nil {
 		return
 	}
-	// type octet: load of buf[0]
-	var typ ssa.Value
-	allInstrs(f, func(in ssa.Instruction) {
-		if u, ok := in.(*ssa.UnOp); ok {
-			if ia, ok := u.X.(*ssa.IndexAddr); ok {
-				if k, isK := constInt(ia.Index); isK && k == 0 {
-					if accessPath(ia.X) == "buf" {
-						typ = u
-					}
-				}
-			}
-		}
-	})
-	if typ == nil {
-		c.undecided("C20.specifier", "Parse type octet", f, "buf[0] not found")
+	if len(f.Params) != 1 || f.Signature.Results().Len() != 2 {
+		c.undecided("C20.specifier", "Parse", f, "unexpected signature")
 		return
 	}
-	want := map[int64]string{0: "Simple", 1: "Salted", 3: "Iterated"}
-	bad := ""
+	const hs, outLen, pl = 20, 23, 4
+	// octet values chosen so that every octet of the stream, mistaken for the count
+	// octet, still decodes to a count small enough to interpret (and distinct from
+	// the two count octets used)
+	salt := []int64{0x05, 0x06, 0x07, 0x08, 0x09, 0x0a, 0x0b, 0x0c}
+	badDispatch, badArgs := "", ""
+	nAccepted := 0
 	for v := int64(0); v <= 255; v++ {
-		e := newEnv()
-		e.bind(typ, v)
-		e.bindNilTests(f, func(ssa.Value) bool { return true }, true)
-		allInstrs(f, func(in ssa.Instruction) {
-			if ex, ok := in.(*ssa.Extract); ok && ex.Index == 1 && isBoolType(ex.Type()) {
-				e.bind(ex, 1) // hash id known
+		countOctets := []int64{0x00}
+		if v == 3 {
+			countOctets = []int64{0x00, 0x13}
+		}
+		for _, co := range countOctets {
+			stream := append(append([]int64{v, 2}, salt...), co)
+			s := newC20sim(c, pkg, hs)
+			s.input = func(pos int64) int64 {
+				if pos < int64(len(stream)) {
+					return stream[pos]
+				}
+				return c20Unknown
 			}
-			if cl, ok := in.(*ssa.Call); ok && strings.HasSuffix(short(calleeName(&cl.Call)), "crypto.Hash).Available") {
-				e.bind(cl, 1)
-			}
-		})
-		e.solve(f)
-		kind := ""
-		for _, r := range returnsOf(f) {
-			if !e.reach[r.Block()] {
+			s.extra = c20HashCalls(s, func(n int64, ok bool) bool { return ok && n == stream[1] }, 0)
+			w := s.walker(8000)
+			w.cls[f.Params[0]] = "reader"
+			end := w.walk(f.Blocks[0], nil)
+			if end != "return" {
+				badDispatch = fmt.Sprintf("S2K type %d: evaluation ended with %s %s", v, end, w.why)
 				continue
 			}
-			if mc, ok := retVal(r, 0).(*ssa.MakeClosure); ok {
-				inner := mc.Fn.(*ssa.Function)
-				for _, n := range []string{"Simple", "Salted", "Iterated"} {
-					if len(callsNamed(inner, pkg+"."+n)) == 1 {
-						kind += n
+			ret := w.last.(*ssa.Return)
+			fv := s.fnValue(ret.Results[0])
+			errSt := s.errState(ret.Results[1], ret.Block())
+			valid := v == 0 || v == 1 || v == 3
+			if !valid {
+				switch {
+				case fv != nil || !isNilConst(ret.Results[0]):
+					badDispatch = fmt.Sprintf("S2K type %d is accepted (a key-derivation function is returned); every type other than 0, 1 and 3 must be rejected", v)
+				case errSt != neverNil:
+					badDispatch = fmt.Sprintf("S2K type %d is not rejected with an error", v)
+				}
+				continue
+			}
+			if fv == nil || errSt != definitelyNil {
+				badDispatch = fmt.Sprintf("S2K type %d is not accepted (no function, or an error, is returned)", v)
+				continue
+			}
+			nAccepted++
+			if len(s.notes) > 0 {
+				badArgs = fmt.Sprintf("S2K type %d: %s", v, strings.Join(s.notes, "; "))
+				continue
+			}
+			wantRead := map[int64]int64{0: 2, 1: 10, 3: 11}[v]
+			if s.rpos != wantRead {
+				badArgs = fmt.Sprintf("S2K type %d: %d octets of the specifier are consumed, its layout has %d", v, s.rpos, wantRead)
+				continue
+			}
+			ch, fn, end2 := s.callFn(w, fv, 0, func(ch *pathWalker, fn *ssa.Function) {
+				if len(fn.Params) == 2 {
+					s.param(ch, fn.Params[0], "out", c20Fill(c20OutInit, outLen), false)
+					s.param(ch, fn.Params[1], "in", c20Seq(c20PassTok, pl), true)
+				}
+			})
+			if end2 != "return" || len(fn.Params) != 2 {
+				why := ""
+				if ch != nil {
+					why = ch.why
+				}
+				badArgs = fmt.Sprintf("S2K type %d: evaluation of the returned function ended with %s %s", v, end2, why)
+				continue
+			}
+			var wantSalt []int64
+			if v != 0 {
+				wantSalt = salt
+			}
+			if msg := s.compare("out", hs, outLen, wantSalt, c20Seq(c20PassTok, pl), v == 3, c20Dec(co)); msg != "" {
+				kind := map[int64]string{0: "Simple", 1: "Salted with stream octets 2..9 as salt", 3: fmt.Sprintf("Iterated with stream octets 2..9 as salt and count %d (octet %#x)", c20Dec(co), co)}[v]
+				badArgs = fmt.Sprintf("S2K type %d: the returned function does not derive the %s key: %s", v, kind, msg)
+			} else if w.oob || ch.oob {
+				badArgs = fmt.Sprintf("S2K type %d: a slice expression leaves its bounds", v)
+			}
+		}
+	}
+	c.check(badDispatch == "", "C20.specifier", "Parse type dispatch", f, "types 0/1/3 accepted, all other types rejected with an error and no function (256 values interpreted)", badDispatch)
+	c.check(badArgs == "" && nAccepted == 4, "C20.specifier", "Parse salt and count", f, "type 0/1/3 consume 2/10/11 octets; the returned function produces the Simple / Salted / Iterated transcript with salt = octets 2..9 and count = decodeCount(octet 10) over the hash named by octet 1", badArgs)
+}
+
+// c20Serialize interprets Serialize(w, key, rand, passphrase, config).
+func c20Serialize(c *Ctx, pkg string) {
+	g := c.fn(pkg, "Serialize")
+	if g == nil {
+		return
+	}
+	if len(g.Params) != 5 {
+		c.undecided("C20.specifier", "Serialize layout", g, "unexpected signature")
+		return
+	}
+	const hs, outLen, pl, hashID = 20, 23, 4, 8
+	rnd := []int64{0xb1, 0xb2, 0xb3, 0xb4, 0xb5, 0xb6, 0xb7, 0xb8}
+	bad := ""
+	for _, co := range []int64{0x00, 0x13} {
+		s := newC20sim(c, pkg, hs)
+		s.input = func(pos int64) int64 {
+			if pos < int64(len(rnd)) {
+				return rnd[pos]
+			}
+			return c20Unknown
+		}
+		cfg := g.Params[4]
+		hashCalls := c20HashCalls(s, func(int64, bool) bool { return false }, hashID)
+		s.extra = func(w *pathWalker, ci ssa.CallInstruction) bool {
+			cc := ci.Common()
+			val, _ := ci.(ssa.Value)
+			// methods of the configuration: its hash and its count octet
+			if val != nil && !cc.IsInvoke() && len(cc.Args) == 1 && cc.Args[0] == ssa.Value(cfg) {
+				switch {
+				case c20TypeIs(val.Type(), "crypto.Hash"):
+					w.cls[val] = "hashid"
+					w.env.bind(val, 3)
+					return true
+				case c20IsOctet(val.Type()):
+					w.env.bind(val, co)
+					return true
+				}
+			}
+			return hashCalls(w, ci)
+		}
+		w := s.walker(40000)
+		w.cls[g.Params[0]] = "writer"
+		s.param(w, g.Params[1], "out", c20Fill(c20OutInit, outLen), false)
+		w.cls[g.Params[2]] = "reader"
+		s.param(w, g.Params[3], "in", c20Seq(c20PassTok, pl), true)
+		end := w.walk(g.Blocks[0], nil)
+		id := fmt.Sprintf("count octet %#x", co)
+		if end != "return" {
+			bad = id + ": evaluation ended with " + end + " " + w.why
+			break
+		}
+		if s.errState(retVal(w.last.(*ssa.Return), 0), w.last.Block()) != definitelyNil {
+			bad = id + ": an error is returned although reading and writing succeed"
+			break
+		}
+		wantWritten := append(append([]int64{3, hashID}, rnd...), co)
+		if fmt.Sprint(s.written) != fmt.Sprint(wantWritten) || s.rpos != 8 {
+			bad = fmt.Sprintf("%s: Serialize does not write the specifier Parse reads: %d random octets read, written %v, expected [3, hash id, the 8 octets read, count octet] = %v", id, s.rpos, s.written, wantWritten)
+			break
+		}
+		if msg := s.compare("out", hs, outLen, rnd, c20Seq(c20PassTok, pl), true, c20Dec(co)); msg != "" {
+			bad = fmt.Sprintf("%s: the key is not derived with Iterated over the written salt and count %d: %s", id, c20Dec(co), msg)
+			break
+		}
+		if w.oob {
+			bad = id + ": a slice expression leaves its bounds"
+		}
+	}
+	c.check(bad == "", "C20.specifier", "Serialize layout", g, "writes [3, hash id, salt(8), count octet] and derives the key with that salt and decodeCount(count octet)", bad)
+}
+
+// c20HashIds: the package's table relating OpenPGP hash ids to crypto.Hash —
+// the composite literal whose element struct has an octet field, a crypto.Hash
+// field and a string field (fields identified by type, elements positional or keyed).
+func c20HashIds(c *Ctx, pkg string) {
+	want := map[int64]string{1: "MD5", 2: "SHA1", 3: "RIPEMD160", 8: "SHA256", 9: "SHA384", 10: "SHA512", 11: "SHA224"}
+	got := map[int64]string{}
+	okTable, tables := true, 0
+	if p := c.pkg(pkg); p != nil {
+		for _, file := range p.Syntax {
+			ast.Inspect(file, func(n ast.Node) bool {
+				cl, ok := n.(*ast.CompositeLit)
+				if !ok {
+					return true
+				}
+				tv, ok := p.TypesInfo.Types[cl]
+				if !ok {
+					return true
+				}
+				var elem types.Type
+				switch t := tv.Type.Underlying().(type) {
+				case *types.Slice:
+					elem = t.Elem()
+				case *types.Array:
+					elem = t.Elem()
+				default:
+					return true
+				}
+				st, ok := elem.Underlying().(*types.Struct)
+				if !ok {
+					return true
+				}
+				idF, hashF, nameF := -1, -1, -1
+				for i := 0; i < st.NumFields(); i++ {
+					ft := st.Field(i).Type()
+					switch {
+					case c20TypeIs(ft, "crypto.Hash") && hashF < 0:
+						hashF = i
+					case c20IsOctet(ft) && idF < 0:
+						idF = i
+					case c20TypeIs(ft, "string") && nameF < 0:
+						nameF = i
 					}
 				}
-			} else if errNilness(retVal(r, 1), r.Block(), 0) == neverNil {
-				kind += "error"
-			}
-		}
-		w, known := want[v]
-		if !known {
-			w = "error"
-		}
-		if kind != w {
-			bad = fmt.Sprintf("S2K type %d leads to %q, expected %q", v, kind, w)
-		}
-	}
-	c.check(bad == "", "C20.specifier", "Parse type dispatch", f, "types 0/1/3 -> Simple/Salted/Iterated, all other types rejected (256 values evaluated)", bad)
-	// closure arguments: salt = buf[:8], count = decodeCount(buf[8])
-	okArgs := true
-	for _, ac := range f.AnonFuncs {
-		for _, ci := range callsNamed(ac, pkg+".Salted", pkg+".Iterated") {
-			a := ci.Common().Args
-			sl, ok := a[3].(*ssa.Slice)
-			if !ok {
-				okArgs = false
-				continue
-			}
-			hi, _ := constInt(sl.High)
-			if sl.Low != nil || sl.High == nil || hi != 8 {
-				okArgs = false
-			}
-		}
-	}
-	var dc []ssa.CallInstruction = callsNamed(f, pkg+".decodeCount")
-	okCount := len(dc) == 1
-	if okCount {
-		u, ok := dc[0].Common().Args[0].(*ssa.UnOp)
-		okCount = ok
-		if ok {
-			ia, ok2 := u.X.(*ssa.IndexAddr)
-			k, _ := constInt(ia.Index)
-			okCount = ok2 && k == 8
-		}
-	}
-	c.check(okArgs && okCount, "C20.specifier", "Parse salt and count", f, "salt = octets 0..7 after the header, count = decodeCount(octet 8)", "the salt is not the 8 octets after the header or the count is not decoded from the ninth")
-	// Serialize layout
-	if g := c.fn(pkg, "Serialize"); g != nil {
-		got := map[int64]string{}
-		var saltSl *ssa.Slice
-		allInstrs(g, func(in ssa.Instruction) {
-			switch x := in.(type) {
-			case *ssa.Store:
-				if ia, ok := x.Addr.(*ssa.IndexAddr); ok && accessPath(ia.X) == "buf" {
-					k, _ := constInt(ia.Index)
-					if cv, isK := constInt(x.Val); isK {
-						got[k] = fmt.Sprint(cv)
-					} else if ex, isE := x.Val.(*ssa.Extract); isE {
-						if cl, isC := ex.Tuple.(*ssa.Call); isC {
-							got[k] = short(calleeName(&cl.Call))
+				if idF < 0 || hashF < 0 {
+					return true
+				}
+				tables++
+				for _, el := range cl.Elts {
+					if kv, isKV := el.(*ast.KeyValueExpr); isKV {
+						el = kv.Value // array / slice index key
+					}
+					row, ok := el.(*ast.CompositeLit)
+					if !ok {
+						okTable = false
+						continue
+					}
+					fields := map[int]ast.Expr{}
+					for i, e := range row.Elts {
+						if kv, isKV := e.(*ast.KeyValueExpr); isKV {
+							if key, isID := kv.Key.(*ast.Ident); isID {
+								for k := 0; k < st.NumFields(); k++ {
+									if st.Field(k).Name() == key.Name {
+										fields[k] = kv.Value
+									}
+								}
+							}
+						} else {
+							fields[i] = e
 						}
-					} else if cl, isC := x.Val.(*ssa.Call); isC {
-						got[k] = short(calleeName(&cl.Call))
+					}
+					if fields[idF] == nil || fields[hashF] == nil {
+						okTable = false
+						continue
+					}
+					idv := p.TypesInfo.Types[fields[idF]].Value
+					hashName := ""
+					switch h := fields[hashF].(type) {
+					case *ast.SelectorExpr:
+						hashName = h.Sel.Name
+					case *ast.Ident:
+						hashName = h.Name
+					}
+					if obj, isC := p.TypesInfo.Uses[c20Ident(fields[hashF])].(*types.Const); !isC || obj.Pkg() == nil || obj.Pkg().Path() != "crypto" {
+						okTable = false
+					}
+					if idv == nil || hashName == "" {
+						okTable = false
+						continue
+					}
+					id, _ := constant.Int64Val(constant.ToInt(idv))
+					if _, dup := got[id]; dup {
+						okTable = false
+					}
+					got[id] = hashName
+					if nameF >= 0 {
+						namev := p.TypesInfo.Types[fields[nameF]].Value
+						if fields[nameF] == nil || namev == nil || namev.Kind() != constant.String || constant.StringVal(namev) != hashName {
+							okTable = false
+						}
 					}
 				}
-			case *ssa.Slice:
-				if accessPath(x.X) == "buf" && x.Low != nil && x.High != nil {
-					lo, _ := constInt(x.Low)
-					hi, _ := constInt(x.High)
-					if lo == 2 && hi == 10 {
-						saltSl = x
-					}
-				}
-			}
-		})
-		okL := got[0] == "3" && got[1] == pkg+".HashToHashId" && strings.HasSuffix(got[10], "Config).encodedCount") && saltSl != nil
-		okUse := false
-		for _, ci := range callsNamed(g, pkg+".Iterated") {
-			a := ci.Common().Args
-			if saltSl != nil && a[3] == ssa.Value(saltSl) {
-				if dcc, ok := a[4].(*ssa.Call); ok && short(calleeName(&dcc.Call)) == pkg+".decodeCount" {
-					if ec, ok := dcc.Call.Args[0].(*ssa.Call); ok && strings.HasSuffix(short(calleeName(&ec.Call)), "Config).encodedCount") {
-						okUse = true
-					}
-				}
-			}
+				return false
+			})
 		}
-		c.check(okL && okUse, "C20.specifier", "Serialize layout", g, "writes [3, hash id, salt(8), count octet] and derives the key with that salt and decodeCount(count octet)", fmt.Sprintf("Serialize does not write the specifier Parse reads, or derives the key with other parameters than it wrote: %v", got))
 	}
+	okTable = okTable && tables == 1 && len(got) == len(want)
+	for id, n := range want {
+		if got[id] != n {
+			okTable = false
+		}
+	}
+	c.check(okTable, "C20.hash-ids", "hash id table", nil, "RFC 4880 9.4 ids 1,2,3,8,9,10,11 with matching crypto.Hash and name", fmt.Sprintf("the hash-id table differs from RFC 4880 section 9.4: %v", got))
+}
+
+func c20Ident(e ast.Expr) *ast.Ident {
+	switch x := e.(type) {
+	case *ast.SelectorExpr:
+		return x.Sel
+	case *ast.Ident:
+		return x
+	}
+	return nil
 }
